@@ -127,7 +127,7 @@ func c17dInfoAny(in c17dAny) ev.Info {
 }
 
 var c17dULabels = []string{
-	"\u0442\u0435\u0441\u0442", "b\u00fccher", "stra\u00dfe", "\u03b5\u03bb\u03bb\u03ac\u03b4\u03b1", "\u4f8b\u3048", "caf\u00e9", "\u0439\u043e\u0433",
+	"\u0442\u0435\u0441\u0442", "b\u00fccher", "stra\u00dfe", "\u03b5\u03bb\u03bb\u03ac\u03b4\u03b1", "\u4f8b\u3048", "caf\u00e9", "\u0439\u043e\u0433", "\u03b1\u0390\u03b1",
 	"example", "mail", "sub-1", "a", "org", "x1",
 }
 
@@ -174,6 +174,11 @@ func (s c17dSpell) String() string {
 		return l.A
 	case 4:
 		return strings.ToUpper(l.A)
+	case 6:
+		if up := norm.NFC.String(strings.ToUpper(norm.NFD.String(l.U))); norm.NFC.String(strings.ToLower(up)) == l.U {
+			return up
+		}
+		return l.U
 	default:
 		if strings.HasPrefix(l.A, "xn--") {
 			return "Xn--" + l.A[4:]
@@ -229,7 +234,7 @@ func c17dGenVariants(t *rapid.T) c17dVariants {
 	for v := 0; v < n; v++ {
 		d := c17dDomain{Dot: rapid.IntRange(0, 4).Draw(t, "dot") == 0}
 		for i := range base {
-			d.Labels = append(d.Labels, c17dSpell{Idx: base[i], Form: rapid.IntRange(0, 5).Draw(t, "form")})
+			d.Labels = append(d.Labels, c17dSpell{Idx: base[i], Form: rapid.IntRange(0, 6).Draw(t, "form")})
 		}
 		if v > 0 && rapid.IntRange(0, 5).Draw(t, "other") == 0 {
 			d.Labels[rapid.IntRange(0, nl-1).Draw(t, "chg")].Idx = rapid.IntRange(0, len(c17dLabels)-1).Draw(t, "label2")
